@@ -3,9 +3,10 @@
    (model/Heap.v, validated against the Go runtime on random slice programs)
    and about the regenerated table of boundary-crossing sites; aliasing inside
    the standard library and the protobuf runtime is outside the model.
-   Statements only; proofs in proofs/HeapProofs.v, proofs/AliasSitesProofs.v. *)
+   Statements only; proofs in proofs/HeapProofs.v, proofs/HeapProofs2.v,
+   proofs/AliasSitesProofs.v. *)
 From Coq Require Import List NArith Arith Bool.
-From Tink Require Import Heap HeapProofs AliasSites AliasSitesProofs.
+From Tink Require Import Heap HeapProofs HeapProofs2 AliasSites AliasSitesProofs.
 Import ListNotations.
 
 (* A write through one array never changes what a slice of another array shows. *)
@@ -87,3 +88,51 @@ Print Assumptions C19_store_parameter_refuted.
 Theorem C19_no_unframed_sites_in_source : c19_unframed_sites = [].
 Proof. exact no_unframed_sites. Qed.
 Print Assumptions C19_no_unframed_sites_in_source.
+
+(* THE FRAME THEOREM at program level.  Ownership discipline (HeapProofs2.own_step): a
+   function may write (s[i] = v, copy(dst, _), append(s, _)) only through slices it obtained
+   from its own allocations (make, bytes.Clone, slices.Concat, append on an owned slice,
+   sub-slices of those).  For EVERY caller heap, parameter slices and disciplined program that
+   runs without panicking: every view the caller has of its memory (up to capacity) reads
+   the same afterwards, and everything the function owns lives in arrays allocated during
+   the call, disjoint from every slice the caller could have formed before. *)
+Theorem C19_disciplined_program_frames_the_caller :
+  forall h0 params p h' vars',
+    disciplined (map (fun _ => false) params) p = true ->
+    run_strict (h0, params) p = Some (h', vars') ->
+    (forall s, wf_slice h0 s -> read h' s = read h0 s /\ read_cap h' s = read_cap h0 s) /\
+    (exists own', own_run (map (fun _ => false) params) p = Some own' /\
+       forall v r, nth_error vars' v = Some r -> nth v own' false = true ->
+         List.length h0 <= arr r /\ forall s, wf_slice h0 s -> arr s <> arr r).
+Proof. exact disciplined_program_frames_the_caller. Qed.
+Print Assumptions C19_disciplined_program_frames_the_caller.
+
+(* The discipline is necessary: append, index assignment and copy applied to a parameter each
+   change what the caller sees (witnesses). *)
+Theorem C19_undisciplined_programs_refuted :
+  (exists h0 param caller h' vars',
+      run_strict (h0, [param]) [IAppend 0 [7%N] 0] = Some (h', vars') /\ wf_slice h0 caller /\
+      read h' caller <> read h0 caller) /\
+  (exists h0 param caller h' vars',
+      run_strict (h0, [param]) [ISet 0 0 7%N] = Some (h', vars') /\ wf_slice h0 caller /\
+      read h' caller <> read h0 caller) /\
+  (exists h0 param other caller h' vars',
+      run_strict (h0, [param; other]) [ICopy 0 1] = Some (h', vars') /\ wf_slice h0 caller /\
+      read h' caller <> read h0 caller).
+Proof. exact undisciplined_programs_refuted. Qed.
+Print Assumptions C19_undisciplined_programs_refuted.
+
+(* THE TIE, second form: every place of the current source where a caller's byte slice or
+   an object's own byte slice meets slices.Concat / bytes.Clone - and every unframed site, if
+   there were one - is emitted by the translator as a program of the slice language (table
+   regenerated on every run; 120 entries at the pinned commit).  Each is disciplined and what
+   it keeps or returns is owned, so the frame theorem applies to every one of them. *)
+Theorem C19_every_site_of_the_source_frames_the_caller :
+  forall pkg fn np prog res, In (pkg, fn, np, prog, res) c19_site_programs ->
+  forall h0 params h' vars', List.length params = np ->
+    run_strict (h0, params) prog = Some (h', vars') ->
+    (forall s, wf_slice h0 s -> read h' s = read h0 s /\ read_cap h' s = read_cap h0 s) /\
+    (forall r, nth_error vars' res = Some r ->
+       List.length h0 <= arr r /\ forall s, wf_slice h0 s -> arr s <> arr r).
+Proof. exact every_site_frames_the_caller. Qed.
+Print Assumptions C19_every_site_of_the_source_frames_the_caller.
